@@ -57,6 +57,7 @@ type HistItem struct {
 	Src    []byte   `json:"src,omitempty"`
 	UseSrc bool     `json:"use_src,omitempty"`
 	Fail   int      `json:"fail"`
+	Render bool     `json:"render,omitempty"` // the caller renders the error (Error(), String(), DescribeExpected)
 }
 
 // Key identifies a case exactly (grammar + flags + input), never by symptom.
